@@ -42,6 +42,8 @@ ASSUME = [
     "integer DataFrames/Series saved as csv, modules are one-line files; excel files and "
     "absolute (external) paths are outside the vocabulary",
     "two spaces per model (B may derive from A), references at model level and in both spaces",
+    "references may also be bound to modelx objects of the same model (the spaces A, B and their "
+    "cells c); a space is not deleted while a reference outside it points into it",
     "the abstract state is read after every public call from model.iospecs, model.get_spec, "
     "the spaces' own references, ReferenceManager._valid_to_refs, mxsys.iomanager.ios and "
     "mxsys._check_sanity(); TLC evaluates every predicate on these observations",
@@ -53,6 +55,8 @@ RAND_INIT = {"models": ["M1", "M2"], "base": ["M1"], "pvals": [1, 2, 3], "mvals"
 RAND_NAMES = ["x", "y", "z"]
 RAND_CSV = ["p.csv", "q.csv", "d/r.csv"]
 RAND_MOD = ["mo.py", "d/mo2.py"]
+RAND_OBJ = [101, 102, 103, 104]     # modelx objects of the same model: A, A.c, B, B.c
+OBJ_SPACE = {101: "A", 102: "A", 103: "B", 104: "B"}
 
 
 # ---------------------------------------------------------------------------
@@ -81,7 +85,7 @@ def make_gen(seed, nops):
             k = rng.choices(
                 ["new_csv", "new_mod", "bad", "assign", "del", "update", "base", "wr", "close",
                  "delsp"],
-                [22, 7, 5, 22, 14, 10, 6, 6, 1.2, 0.8 if risky else 0])[0]
+                [22, 7, 5, 24, 14, 10, 6, 6, 1.2, 0.8 if risky else 0])[0]
             if k == "new_csv":
                 vs = [v for v in RAND_INIT["pvals"] if risky or v not in has_spec]
                 if not vs:
@@ -106,6 +110,9 @@ def make_gen(seed, nops):
                 # (a module is only bound again where it has its spec: a model holding a
                 #  module without a spec cannot be saved, which is not C18's subject)
                 vs = [0] + RAND_INIT["pvals"] + [v for v in RAND_INIT["mvals"] if v in has_spec]
+                if rng.random() < 0.3:
+                    # a modelx object of the same model (space or cells)
+                    vs = [o for o in RAND_OBJ if OBJ_SPACE[o] in om["sp"]] or vs
                 v = rng.choice(vs)
                 n = rng.choice(RAND_NAMES)
                 if not risky and any(r["sp"] == sp and r["n"] == n and r["v"] == v
@@ -120,7 +127,7 @@ def make_gen(seed, nops):
                     n = rng.choice(RAND_NAMES)
                 return {"op": "del_ref", "m": m, "sp": sp, "n": n}
             if k == "update":
-                cands = [v for v in bound if v > 0] or RAND_INIT["pvals"]
+                cands = [v for v in bound if 0 < v < 100] or RAND_INIT["pvals"]
                 old = rng.choice(sorted(cands))
                 if old in RAND_INIT["mvals"]:
                     if not fresh_m or old not in has_spec or any(old in {r["v"] for r in obs["M"][o]["refs"]}
@@ -145,9 +152,14 @@ def make_gen(seed, nops):
                     continue
                 return {"op": "close", "m": m}
             if k == "delsp":
-                if not om["sp"]:
+                # (not a space that references outside it point into: dangling handles are
+                #  not C18's subject)
+                free = [s for s in om["sp"]
+                        if not any(r["v"] >= 100 and OBJ_SPACE.get(r["v"]) == s and r["sp"] != s
+                                   for r in om["refs"])]
+                if not free:
                     continue
-                return {"op": "del_space", "m": m, "sp": rng.choice(om["sp"])}
+                return {"op": "del_space", "m": m, "sp": rng.choice(free)}
         return None
     return gen
 
@@ -504,6 +516,29 @@ def run(pid, tier, seed):
             if e["op"] == "write_read" and e["res"] == "ok" and e["rt"]:
                 ante["saves_with_live_specs"] += 1
                 ante["spec_files_compared"] += len(e["rt"])
+            # modelx objects as values
+            pm = prev["M"].get(e["m"], {"refs": []})
+            tgt = [r for r in pm["refs"] if r["sp"] == e.get("sp") and r["n"] == e.get("n")] \
+                if "n" in e else []
+            if e["op"] == "assign" and e["res"] == "ok" and e["v"] >= 100:
+                ante["object_bound"] += 1
+                if e["sp"] == "":
+                    ante["object_bound_at_model_level"] += 1
+                if nspec_post < nspec_pre:
+                    ante["spec_ended_by_rebinding_to_object"] += 1
+            if e["op"] in ("assign", "new_spec") and e["res"] == "ok" and e["v"] < 100 and \
+                    tgt and tgt[0]["v"] >= 100:
+                ante["object_ref_rebound_to_value"] += 1
+                if e["op"] == "new_spec":
+                    ante["spec_created_on_name_bound_to_object"] += 1
+            if e["op"] == "del_ref" and tgt and tgt[0]["v"] >= 100:
+                ante["object_ref_deleted:%s:%s" % ("derived" if tgt[0]["d"] else "defined",
+                                                   e["res"])] += 1
+            if any(r["d"] and r["v"] >= 100 for m in post["M"].values() for r in m["refs"]):
+                ante["states_with_derived_object_ref"] += 1
+            if e["op"] == "write_read" and e["res"] == "ok" and \
+                    any(r["v"] >= 100 for r in pm["refs"]):
+                ante["saves_with_object_refs"] += 1
             if e["op"] == "close" and nspec_post < nspec_pre:
                 ante["closes_ending_specs"] += 1
             if e["op"] == "update" and e["res"] == "ok" and e["old"] != e["new"] and \
@@ -513,8 +548,11 @@ def run(pid, tier, seed):
     for k in ("events_where_a_spec_ended", "events_where_a_spec_began", "rejected_events",
               "saves_with_live_specs", "closes_ending_specs", "updates_moving_a_spec",
               "states_with_two_specs_in_a_model", "states_with_specs_in_two_models",
-              "states_with_derived_ref_to_spec_value"):
-        if not ante[k]:
+              "states_with_derived_ref_to_spec_value", "object_bound",
+              "object_bound_at_model_level", "spec_ended_by_rebinding_to_object",
+              "object_ref_rebound_to_value", "object_ref_deleted:defined:ok",
+              "states_with_derived_object_ref", "saves_with_object_refs"):
+        if not ante[k] and not res["violations"]:
             res["machinery_failure"] = "vacuous run: %s never happened" % k
 
     cov = {
